@@ -83,8 +83,13 @@ def cond_terms(c):
     return []
 
 
+SHARED = {}  # set by multi-query checks: list of shared condition IRs for the IR being processed
+
+
 def cond_refs(c, acc=None):
     acc = acc if acc is not None else set()
+    if c["c"] == "shared":
+        return cond_refs(c["ref"], acc)
     for t in cond_terms(c):
         term_refs(t, acc)
     k = c["c"]
@@ -126,6 +131,9 @@ def query_refs(ir):
 def walk_conds(c):
     yield c
     k = c["c"]
+    if k == "shared":
+        yield from walk_conds(c["ref"])
+        return
     if k in ("and", "or"):
         for x in c["xs"]:
             yield from walk_conds(x)
@@ -201,6 +209,8 @@ class Oracle:
 
     def holds(self, c, s) -> bool:
         k = c["c"]
+        if k == "shared":
+            return self.holds(c["ref"], s)
         if k == "cmp":
             return bool(OPS[c["op"]](self.term(c["l"], s), self.term(c["r"], s)))
         if k == "in":
@@ -270,6 +280,7 @@ class Builder:
         self.domain_factory = domain_factory
         self.var_nodes: Dict[int, Any] = {}
         self.dvar_nodes: Dict[int, Any] = {}
+        self.shared_nodes: Dict[int, Any] = {}
         from ..models import eql_world as W
 
         self.W = W
@@ -334,6 +345,11 @@ class Builder:
         from krrood.entity_query_language.predicate import HasType
 
         k = c["c"]
+        if k == "shared":
+            # one condition object used by several queries
+            if c["i"] not in self.shared_nodes:
+                self.shared_nodes[c["i"]] = self.cond(c["ref"])
+            return self.shared_nodes[c["i"]]
         if k == "cmp":
             l, r = self.term(c["l"]), self.term(c["r"])
             return OPS[c["op"]](l, r)
